@@ -26,18 +26,22 @@ def terminalPhase (ph : Nat) : Bool := ph == 4 || ph == 3 || ph == 5
     waiting collection is NOT touched -/
 def dropMark (st : ArbSt) (jid : Nat) : ArbSt := { st with arbitrated := st.arbitrated.filter (· != jid) }
 
-/-- an informer event for a PodMigrationJob; `update` carries the phase of ObjectNew -/
+/-- an informer event for a PodMigrationJob; `create` carries the phase of the object, `update` that of ObjectNew -/
 inductive HEvent where
-  | create (jid : Nat)
+  | create (jid : Nat) (phase : Nat)
   | update (jid : Nat) (phase : Nat)
   | delete (jid : Nat)
 deriving Repr, DecidableEq
 
-/-- arbitrationHandler.Create → AddPodMigrationJob (`waitingCollection[job.UID] = copy`, a map: idempotent);
+/-- arbitrationHandler.Create → AddPodMigrationJob (`waitingCollection[job.UID] = copy`, a map: idempotent), unless the
+    job's phase is Failed / Succeeded / Aborted (early return since 2a5d178: a finished job seen again after a restart is
+    not arbitrated again);
     Update → DeletePodMigrationJob iff the new phase is terminal; Delete → DeletePodMigrationJob.
     (The work-queue Adds of Update / Delete feed the reconciler, not the arbitrator.) -/
 def handle (st : ArbSt) : HEvent → ArbSt
-  | .create jid => if st.waiting.contains jid then st else { st with waiting := jid :: st.waiting }
+  | .create jid ph =>
+    if terminalPhase ph then st
+    else if st.waiting.contains jid then st else { st with waiting := jid :: st.waiting }
   | .update jid ph => if terminalPhase ph then dropMark st jid else st
   | .delete jid => dropMark st jid
 
@@ -52,6 +56,11 @@ def echoAll (st : ArbSt) (jids : List Nat) : ArbSt := jids.foldl echo st
 /-- the API object of job `jid` is deleted and the informer delivers the Delete event -/
 def deleteJob (st : ArbSt) (jid : Nat) : ArbSt :=
   handle { st with jobs := st.jobs.filter (·.id != jid) } (.delete jid)
+
+/-- a (re)started controller: empty filter map and waiting collection, then the informer's initial list delivers one
+    Create event per job in the API -/
+def restart (st : ArbSt) : ArbSt :=
+  st.jobs.foldr (fun j s => handle s (.create j.id j.phase)) { st with arbitrated := [], waiting := [] }
 
 /-- doOnceArbitrate wrote the job's object (annotation Update that succeeded, or the Failed status) -/
 def wrote : Verdict → Bool
